@@ -83,9 +83,9 @@ CLAIMED = {
             "Partial proof: the links are theorems (units = segmentation for every partition; one complete invocation per NAL with all bytes; escape produces no start codes and unescape inverts it); the composed statement (segment (annexb_encode nals) = nals, and parsing inside the handler = parsing alone) is executed, not proved: generated SPS/PPS/SEI/slice sequences with 3-/4-byte start codes, zero padding, payloads to 8 KiB x partitions {1,2,3,127,128,129,16,32,64,random,whole} x Buffer/Ignore policies, also with parameter sets from an AVC configuration record; every NAL also parsed alone in the same run.",
             "Trusted: Coq kernel for the links; pipeline glue (Model/Driver.v) validated by correspondence only.",
             "DESIGN.md 5 C12"),
-    "C17": ("Coq proof that the bit-reader primitives, the parser combinators and the whole SPS parser are monotone under extension of an incomplete source; prefix sweeps by differential execution with a cross-check of prefix vs whole outcomes",
-            "Partial proof: `mono` (on a prefix with tail WouldBlock a parser blocks, or returns the same value as on the whole, or fails where the whole fails) holds for read_bool/read_u/read_ue/read_se/skip/has_more_rbsp_data, is preserved by bind, lift, map_err and counted loops, hence for the whole SPS parser; SPS (finish_rbsp) never succeeds on a proper prefix and finish_sei_payload neither. PPS, slice header and SEI reader (fuelled loops, byte-level reader) are checked by correspondence: every prefix length of generated and mutated NALs in random chunkings, prefix outcome compared with the complete NAL's, each command executed twice with a dirty SEI scratch buffer.",
-            "Trusted: Coq kernel; purity is by construction in the model and observed on the crate.",
+    "C17": ("Coq monotonicity proofs (prefix presented as incomplete vs whole) for all primitives, combinators and the whole SPS, PPS and slice-header parsers incl. fuel-insensitivity of their loops, SEI reader prefix theorem, and the proof that the byte layers (C15 + C02) present a partial clean NAL as a prefix bit source with a would-block tail; purity/scratch reuse by differential execution",
+            "Proof: C17_partial_view - for every clean NAL in any chunking and every prefix of its bytes in any chunking presented as an incomplete NAL, the bit sources built by chunk reader + RBSP reader are in the prefix relation (tail WouldBlock vs Eof; the complete one is the unescaped payload). mono: on the prefix a parser blocks, or returns the same value with sources still related, or fails where the whole fails: proved for read_bool/u/ue/se/skip/has_more_rbsp_data, bind/rep, and the whole SPS, PPS (any context) and slice-header (any context, any NAL header) parsers; their loops whose fuel is taken from the source length are proved insensitive to the larger fuel of the longer source. SPS and PPS never return a value on a proper prefix (they need the end of the RBSP); a slice header accepted from a prefix equals the one from the whole NAL. C17_sei_reader: on a prefix the SEI reader yields a prefix of the complete message sequence, then blocks (or fails as the whole does), never reporting the end. buffering_period / pic_timing / T.35 parse only complete payloads handed over by the SEI reader. Purity: model functions are values. Correspondence on every run: all prefixes x chunkings of generated and mutated NALs with cross-check prefix vs whole, repeated invocation with dirty scratch (pure=1).",
+            "Trusted: Coq kernel; the correspondence run ties the models to the crate; reuse of scratch storage is a run-time facet observed, not proved.",
             "DESIGN.md 5 C17"),
 }
 
